@@ -1,7 +1,9 @@
-"""C15: pool step contracts (see ob_pool.py)"""
+"""C15: pool step contracts (see ob_pool.py) and the idle limit under schedules (see ob_sched.py)"""
 import ob_pool
+import ob_sched
 
 
 def obligations(prog, src, tier, seed):
     obs = ob_pool.obligations(prog, src, tier, seed, "C15", select=['pool_push', 'pool_release_path'])
+    obs += ob_sched.obligations(prog, src, tier, seed, "C15", classes=("C15",))
     return obs
